@@ -37,6 +37,7 @@ type Ctx struct {
 	timer    *TimerM
 	vc       VC
 	lib      bool
+	afters   []*afterFunc
 }
 
 type TimerM struct {
